@@ -24,6 +24,7 @@ From Coq Require Import List NArith Bool.
 Import ListNotations.
 Require Import Parser SFetch Pipe Drivers Grammar Resolver Loader C02run Depth DepthProofs.
 Require SBase SPrim Consts.
+Local Open Scope nat_scope.
 
 (* (a) The pull parser (iterator API) is not recursive: [state_machine] is a non-recursive definition whose
    continuation is the heap stack [p_states].  For EVERY token list and every state reachable from the
@@ -116,12 +117,12 @@ Example C11_family_2 :
 Proof. reflexivity. Qed.
 Example C11_family_2_events :
   evs_of (fst (parse_tokens (seq_tokens_flat 2) SEnded false))
-  = [EStreamStart; EDocumentStart false; ESequenceStart 0 None; ESequenceStart 0 None;
-     EScalar [97%N] Plain 0 None; ESequenceEnd; ESequenceEnd; EDocumentEnd; EStreamEnd].
+  = [EStreamStart; EDocumentStart false; ESequenceStart 0%N None; ESequenceStart 0%N None;
+     EScalar [97%N] Plain 0%N None; ESequenceEnd; ESequenceEnd; EDocumentEnd; EStreamEnd].
 Proof. vm_compute. reflexivity. Qed.
 (* the hypothesis of (a) is satisfiable beyond the initial state *)
 Example C11_reach_nonempty :
-  exists p, reach (init_parser (seq_tokens_flat 1) false) p [EStreamStart; EDocumentStart false; ESequenceStart 0 None]
+  exists p, reach (init_parser (seq_tokens_flat 1) false) p [EStreamStart; EDocumentStart false; ESequenceStart 0%N None]
             /\ length (p_states p) = 1.
 Proof.
   eexists. split.
@@ -134,11 +135,11 @@ Proof.
 Qed.
 (* the push loader model does succeed on well-formed events, and does fail on others *)
 Example C11_push_loader_runs :
-  pl_document 20 [EDocumentStart false; EMappingStart 0 None; EScalar [97%N] Plain 0 None;
-                  ESequenceStart 0 None; ESequenceEnd; EMappingEnd; EDocumentEnd]
+  pl_document 20 [EDocumentStart false; EMappingStart 0%N None; EScalar [97%N] Plain 0%N None;
+                  ESequenceStart 0%N None; ESequenceEnd; EMappingEnd; EDocumentEnd]
   = PlDone [] 2.
 Proof. reflexivity. Qed.
-Example C11_push_loader_rejects : pl_node 20 1 [ESequenceStart 0 None; EMappingEnd] = PlUnreachable.
+Example C11_push_loader_rejects : pl_node 20 1 [ESequenceStart 0%N None; EMappingEnd] = PlUnreachable.
 Proof. reflexivity. Qed.
 (* depth measures are not constant *)
 Example C11_depth_measures :
